@@ -10,7 +10,8 @@ gives the returned column list.  Multi-symbol queries are evaluated by the model
 with the very function used for a single symbol (`Mkts.Driver.Store.stepM`), so agreement with the
 single query holds by construction in the model; what is checked against the code is that the
 real planner/reader/wire path behaves that way (present, missing, `*`, empty symbols, other
-attribute groups, mismatching column names), and it does not for a symbol listed twice (C13-F30).
+attribute groups, mismatching column names, a symbol listed twice — finding C13-F30, repaired:
+`C13_restriction_is_set` pins the repaired `AddRestriction`).
 -/
 namespace Mkts.Props.C13
 open Mkts.Project Mkts.Bytes
@@ -90,5 +91,9 @@ theorem C13_project_all (cols : Schema) (vals : List Bytes) (h : WellSized cols 
 
 example : projectPayload [("a", 2), ("b", 1), ("c", 2)] ["c", "x", "a", "c"] [1, 2, 3, 4, 5] = [4, 5, 1, 2, 4, 5] := by
   decide
+
+/-- the planner's restriction list of the current source is a set (regenerated skeleton): a
+    symbol listed twice is scanned once -/
+theorem C13_restriction_is_set : Mkts.Project.restrictionIsSet = true := by decide
 
 end Mkts.Props.C13
